@@ -1,7 +1,7 @@
 //! Encoder history generation: class alphabets per encoder, bounded-exhaustive core and the
 //! random history strategy.
 
-use crate::drive_enc::{ESink, EncHistory, Src, CAP_AMPLE, CAP_QUERY};
+use crate::drive_enc::{ESink, EncHistory, Src, CAP_AMPLE, CAP_QUERY, CAP_QUERY_EXACT};
 use crate::gen::pick;
 use crate::golden::{golden, Cell};
 use crate::model_enc::{enc_algo_for, EncAlgo};
@@ -121,6 +121,8 @@ pub struct EProfile {
     pub max_chars: usize,
     pub small_caps_weight: u8,
     pub queries: bool,
+    /// query steps offer exactly the answer (C07)
+    pub exact_queries: bool,
     /// only generate characters the encoder can map (for the if_no_unmappables queries)
     pub mappable_only: bool,
 }
@@ -201,7 +203,11 @@ pub fn history(enc: &'static Encoding, prof: EProfile) -> impl Strategy<Value = 
             .iter()
             .map(|x| {
                 if prof.queries && x % 5 == 0 {
-                    CAP_QUERY
+                    if prof.exact_queries {
+                        CAP_QUERY_EXACT
+                    } else {
+                        CAP_QUERY
+                    }
                 } else if small {
                     m + pick(*x, 4)
                 } else if x % 11 == 0 {
